@@ -5,8 +5,9 @@ subsetting, extraction windows.
 
 Mirrors `tme/orientations.py` (after the `fix:` commits of this property):
 `Orientations._to_text/_from_text`, `_to_relion_star/_parse_star/_from_relion_star`,
-`_to_dynamo_tbl/_from_tbl`, `__getitem__`, `get_extraction_slices`, and the format selection of
-`to_file` / `from_file` (by name or inferred from the file name).
+`_to_dynamo_tbl/_from_tbl`, `__post_init__` (shape validation), `__getitem__`, `copy`, `__iter__`,
+`get_extraction_slices` (float → int picks, windows, `keep_peaks`, the returned subset), and the format selection
+of `to_file` / `from_file` (by name or inferred from the file name).
 
 Text is modelled as `List Char` (what `infile.read()` returns), numbers travel as the *tokens*
 `str(np.float32)` / `str(np.float64)` produced by numpy: printing a float and parsing the token
@@ -472,6 +473,7 @@ structure Orient (τ ρ σ δ : Type) where
   rotations : List ρ
   scores : List σ
   details : List δ
+deriving DecidableEq
 
 def Orient.getIdx {τ ρ σ δ : Type} (o : Orient τ ρ σ δ) (idx : List Int) : Except Err (Orient τ ρ σ δ) := do
   pure ⟨← takeIdx o.translations idx, ← takeIdx o.rotations idx, ← takeIdx o.scores idx, ← takeIdx o.details idx⟩
@@ -509,6 +511,50 @@ def extraction (T e : List Nat) (peaks : List (List Int)) (drop : Bool) :
     List (Nat × List (Int × Int × Int × Int)) :=
   ((List.range peaks.length).zip peaks).filterMap (fun (i, p) =>
     if !drop || keepPick T e p then some (i, windowAxes T e p) else none)
+
+/-- `peaks = self.translations.astype(int)` for one finite coordinate `m * 2^e` (a float32 is such a value with
+`|m| < 2^24`): C conversion, truncation towards zero -/
+def truncPick (m e : Int) : Int :=
+  if 0 ≤ e then m * 2 ^ e.toNat else Int.tdiv m (2 ^ (-e).toNat)
+
+/-- all coordinates of all picks -/
+def truncPeaks (ts : List (List (Int × Int))) : List (List Int) :=
+  ts.map (fun row => row.map (fun x => truncPick x.1 x.2))
+
+/-- the boolean array `keep_peaks` of `get_extraction_slices` (every pick when nothing is dropped) -/
+def keepMask (T e : List Nat) (peaks : List (List Int)) (drop : Bool) : List Bool :=
+  peaks.map (fun p => !drop || keepPick T e p)
+
+/-- `subset = self[keep_peaks]`: the rows of the orientation set returned next to the slices -/
+def extractionSubset {τ ρ σ δ : Type} (o : Orient τ ρ σ δ) (T e : List Nat) (peaks : List (List Int)) (drop : Bool) :
+    Except Err (Orient τ ρ σ δ) :=
+  o.getMask (keepMask T e peaks drop)
+
+/-- `np.arange(self.scores.size)` -/
+def arange (n : Nat) : List Int := (List.range n).map Int.ofNat
+
+/-- `copy()` : `self[np.arange(self.scores.size)]` -/
+def Orient.copy {τ ρ σ δ : Type} (o : Orient τ ρ σ δ) : Except Err (Orient τ ρ σ δ) :=
+  o.getIdx (arange o.scores.length)
+
+/-- `len(list(iter(self)))` : `zip` of the four arrays stops at the shortest -/
+def Orient.iterRows {τ ρ σ δ : Type} (o : Orient τ ρ σ δ) : List (τ × ρ × σ × δ) :=
+  o.translations.zip (o.rotations.zip (o.scores.zip o.details))
+
+/-! ## constructor validation (`__post_init__`) -/
+
+/-- `__post_init__` on the *shapes* of the four arrays (what `np.array(x).astype(np.float32).shape` gives):
+`shape[0]` of a 0-d array is an `IndexError` (raised while the set of row counts is built, before any other test),
+unequal row counts, then `translations.ndim != 2`, then `rotations.ndim != 2` are `ValueError`s; the rank of
+`scores` / `details` is not looked at -/
+def postInit (t r s d : List Nat) : Except Err Unit :=
+  match t, r, s, d with
+  | nt :: _, nr :: _, ns :: _, nd :: _ =>
+    if !(nt == nr && nr == ns && ns == nd) then throw .valueError
+    else if t.length != 2 then throw .valueError
+    else if r.length != 2 then throw .valueError
+    else pure ()
+  | _, _, _, _ => throw .indexError
 
 /-! ## format dispatch (`to_file` / `from_file`) -/
 
